@@ -13,5 +13,5 @@ def one(j):
     name,prop,p=j
     r=run_variant(p,[prop])
     return "%s exit=%d %s"%(name,r[prop][0],r[prop][1][:200])
-with ThreadPoolExecutor(4) as ex:
+with ThreadPoolExecutor(3) as ex:
     for line in ex.map(one,jobs): print(line, flush=True)
